@@ -58,7 +58,7 @@ def run(ck):
             else:
                 o = ms.substitute(f, subs, interpretations=fi)
             ev["res"] = "ok"
-            ev["out"] = term_io.export(o)
+            ev["out"] = term_io.export_result(o)
             ev["rty"] = term_io.export_type(o.get_type())
             if o is not f:
                 ck.nontrivial((term_io.term_key(ev["f"]), tuple(term_io.term_key(k) for k in ev["keys"]),
